@@ -963,6 +963,23 @@ func (w *c13World) history(S *big.Int) string {
 			if rf.Cmp(d.SlashAmount.BigInt()) > 0 {
 				rf = d.SlashAmount.BigInt()
 			}
+			// users tip again between the rounds (with freshly minted coins, so that their liquid holdings stay as the
+			// model tracks them): the tips that count for the vote and for the reward are those at the dispute's block
+			if r.Intn(2) == 0 {
+				for _, v := range w.voters {
+					if v == w.team || r.Intn(2) == 0 {
+						continue
+					}
+					amt := int64(pick(r, 1_000_000, 50_000_000, 1_000_000_000))
+					// written as the oracle's tip bookkeeping (TipperTotal / TotalTips at the current height) without moving
+					// coins, so that the balances and the supply the model tracks are not disturbed
+					h := uint64(w.ctx.BlockHeight())
+					cur, _ := w.s.Oraclekeeper.GetTipsAtBlockForTipper(w.ctx, h, w.accts[v])
+					tot, _ := w.s.Oraclekeeper.GetTotalTipsAtBlock(w.ctx, h)
+					_ = w.s.Oraclekeeper.TipperTotal.Set(w.ctx, collections.Join(w.accts[v].Bytes(), h), cur.Add(math.NewInt(amt)))
+					_ = w.s.Oraclekeeper.TotalTips.Set(w.ctx, h, tot.Add(math.NewInt(amt)))
+				}
+			}
 			p, b := w.somePayer()
 			if p == w.reporter {
 				p = w.payers[0]
